@@ -255,3 +255,47 @@ Example infix_ops_cover_table :
            R_greater; R_greater_eq; R_dot_equal; R_dot_not_equal; R_dot_less; R_dot_less_eq; R_dot_greater;
            R_dot_greater_eq; R_and; R_or; R_coalesce] = true.
 Proof. exact infix_ops_complete. Qed.
+
+(* ---------------------------------------------------------------------------------------------
+   Soundness of the parser with respect to the table, for EVERY token stream (the converse of the
+   round trip). *)
+Require Import Blots.proofs.PrattComplete Blots.proofs.PrattConverse.
+
+(* The relations derive everything the function returns (with C10_relations_sound: the two
+   transcriptions agree on successful conversions). *)
+Theorem C10_relations_complete : forall tbl imap pmap fuel its t,
+  parse_items tbl imap pmap fuel its = Ok (Some t) -> Items tbl imap pmap its t.
+Proof. exact rel_complete. Qed.
+Check C10_relations_complete : forall tbl imap pmap fuel its t,
+  parse_items tbl imap pmap fuel its = Ok (Some t) -> Items tbl imap pmap its t.
+Print Assumptions C10_relations_complete.
+
+(* P0  Whatever token stream `its` the crate's parser converts successfully, with whatever result t:
+   `its` is a rendering of t that carries at least the parentheses spec_table requires.
+   RendSpec m its t (proofs/PrattConverse.v, relation Rend): `its` is
+     - a single non-operator pair whose own conversion gives t (a literal, a name, a parenthesised
+       group, a list, ... — nested streams are converted by the same parser), or
+     - il ++ op :: ir with op an infix token of constructor o, m <= level(o), il rendering the left
+       operand at the level o requires on its left (level(o), or level(o)+1 for the right-associative
+       ^) and ir the right operand likewise, or
+     - a prefix token followed by a rendering of its operand at the prefix level, m <= prefix level, or
+     - a rendering of the operand at a level above the prefix level, followed by a postfix token.
+   So no input is ever grouped against the table.  Induction on the parse derivation. *)
+Theorem C10_parse_sound : forall fuel its t,
+  parse_impl fuel its = Ok (Some t) -> RendSpec 0 its t.
+Proof. intros fuel its t H. apply parse_sound_impl. exact (rel_complete _ _ _ fuel its t H). Qed.
+Check C10_parse_sound : forall fuel its t,
+  parse_impl fuel its = Ok (Some t) -> RendSpec 0 its t.
+Print Assumptions C10_parse_sound.
+
+(* ... and every result of the function satisfies wf *)
+Theorem C10_function_outputs_wf : forall fuel its t, parse_impl fuel its = Ok (Some t) -> wf t = true.
+Proof. intros fuel its t H. apply (impl_outputs_wf its). exact (rel_complete _ _ _ fuel its t H). Qed.
+Check C10_function_outputs_wf : forall fuel its t, parse_impl fuel its = Ok (Some t) -> wf t = true.
+Print Assumptions C10_function_outputs_wf.
+
+(* an instance: a + b * c renders Add a (Multiply b c) *)
+Example rend_example :
+  RendSpec 0 [IIdent "a"; IOp R_add; IIdent "b"; IOp R_multiply; IIdent "c"]
+           (EBin Add (EId "a") (EBin Multiply (EId "b") (EId "c"))).
+Proof. apply (C10_parse_sound 20). vm_compute. reflexivity. Qed.
